@@ -8,6 +8,32 @@ use std::sync::atomic::{AtomicU64, Ordering};
 
 static COUNTER: AtomicU64 = AtomicU64::new(0);
 
+/// Wall-clock watchdog over one run of a worker / replay process. A sequential run has no
+/// scheduler that could notice a call that never returns (a thread blocking on a lock it
+/// holds itself, an endless loop): the process then ends with exit code 3, which the parent
+/// treats like any other death of a worker - it replays the trace in a fresh process (which
+/// ends the same way) and reports the violation. The limit is far above what any run takes
+/// (the longest, bulk histories in the thorough tier, take seconds).
+static RUN_STARTED_MS: AtomicU64 = AtomicU64::new(0);
+pub const RUN_WALL_LIMIT_S: u64 = 120;
+
+fn now_ms() -> u64 {
+    std::time::SystemTime::now().duration_since(std::time::UNIX_EPOCH).map(|d| d.as_millis() as u64).unwrap_or(0)
+}
+
+pub fn watchdog_start() {
+    let _ = std::thread::Builder::new().name("watchdog".into()).spawn(|| loop {
+        std::thread::sleep(std::time::Duration::from_millis(500));
+        let t = RUN_STARTED_MS.load(Ordering::SeqCst);
+        if t != 0 && now_ms().saturating_sub(t) > RUN_WALL_LIMIT_S * 1000 {
+            println!("HUNG: a call into the store did not return within {RUN_WALL_LIMIT_S} s (blocked or spinning); the process ends with exit code 3");
+            let _ = std::io::Write::flush(&mut std::io::stdout());
+            cleanup_scratch_root();
+            unsafe { libc::_exit(3) };
+        }
+    });
+}
+
 pub fn scratch_root() -> PathBuf {
     let base = match std::env::var("VERIF_SCRATCH") {
         Ok(b) if !b.is_empty() => PathBuf::from(b),
@@ -56,6 +82,13 @@ pub fn cleanup_scratch_root() {
 }
 
 pub fn run_trace(trace: &Trace, known_open: &BTreeSet<String>, verbose: bool) -> RunResult {
+    RUN_STARTED_MS.store(now_ms().max(1), Ordering::SeqCst);
+    let r = run_trace_inner(trace, known_open, verbose);
+    RUN_STARTED_MS.store(0, Ordering::SeqCst);
+    r
+}
+
+fn run_trace_inner(trace: &Trace, known_open: &BTreeSet<String>, verbose: bool) -> RunResult {
     let n = COUNTER.fetch_add(1, Ordering::SeqCst);
     let scratch = scratch_root().join(format!("r{n}"));
     let _ = std::fs::remove_dir_all(&scratch);
